@@ -18,10 +18,9 @@ func (r *readerat) ReadAt(p []byte, off int64) (n int, err error) {
 		}
 		r.off = off
 	}
+	// A reader may hand back bytes together with an error (io.EOF with the last
+	// bytes, typically): the stream has moved on by those bytes all the same.
 	c, err := r.rs.Read(p)
-	if err != nil {
-		return c, err
-	}
 	r.off += int64(c)
-	return c, nil
+	return c, err
 }
